@@ -290,8 +290,9 @@ class Interp:
     def for_file(cls, src, relpath, isa=None, stubs=None, also=(), methods=None, **kw):
         """an interpreter for code of one file of the repository: module-level names (and what they import from mindsdb_sql), the methods and
         class-level constants of every class of the file (and of the files in `also`) are resolved from the source"""
-        key = (id(src), relpath, tuple(also))
-        cached = _FOR_FILE_CACHE.get(key)
+        key = (relpath, tuple(also))
+        store = src.__dict__.setdefault('_for_file_cache', {})          # lives and dies with the source set
+        cached = store.get(key)
         if cached is None:
             ms, bases, fnmod, own0, dcs = {}, {}, {}, {}, {}
             for f in tuple(also) + (relpath,):
@@ -323,7 +324,7 @@ class Interp:
                     todo.extend(bases.get(b, []))
             own = {k: dict(v) for k, v in own0.items()}
             fncls = {id(v): k for k, d in own.items() for v in d.values() if isinstance(v, ast.FunctionDef)}
-            cached = _FOR_FILE_CACHE[key] = (ms, fnmod, src, own, bases, fncls, dcs)       # src is kept alive so that id(src) stays unique
+            cached = store[key] = (ms, fnmod, None, own, bases, fncls, dcs)
         ms = dict(cached[0])
         ms.update(methods or {})
         it = cls(isa or {}, stubs or {}, methods=ms, **kw)
